@@ -879,10 +879,10 @@ def render_block(stmts, mode, printer, indent, tail=""):
         if k == "kont":
             again = "(when (< %s %d) (%s (+ %s 1)))" % (st[1], st[3], st[2], st[1])
         if mode == "lets":
-            inner = render_block(rest, mode, printer, indent + 1, "" if not again else again)
-            if again and tail:
-                return pad + "(let ((%s %s))\n%s%s)\n%s%s\n" % (name, e, inner, pad, pad, tail)
             if again:
+                inner = render_block(rest, mode, printer, indent + 1, again)
+                if tail:
+                    return pad + "(let ((%s %s))\n%s%s)\n%s%s\n" % (name, e, inner, pad, pad, tail)
                 return pad + "(let ((%s %s))\n%s%s)\n" % (name, e, inner, pad)
             inner = render_block(rest, mode, printer, indent + 1, tail)
             return pad + "(let ((%s %s))\n%s%s)\n" % (name, e, inner, pad)
